@@ -117,6 +117,31 @@ Proof.
   intros H. apply Forall_forall. intros t Ht. rewrite forallb_forall in H. apply plain_nb. apply H. exact Ht.
 Qed.
 
+(* the front of a callback statement is brace-free *)
+Lemma open_prefix_brace_free a d : open_prefix a d -> brace_free a.
+Proof.
+  induction 1 as [|t a d Ht _ _ IH|t a d Ht _ IH|t a d Ht _ IH]; unfold brace_free in *.
+  - constructor.
+  - apply Forall_app. split; [exact IH|]. constructor; [apply plain_nb; exact Ht | constructor].
+  - apply Forall_app. split; [exact IH|]. constructor; [|constructor].
+    split; [apply lparen_not_lbrace | apply lparen_not_rbrace]; exact Ht.
+  - apply Forall_app. split; [exact IH|]. constructor; [|constructor].
+    split; [apply rparen_not_lbrace | apply rparen_not_rbrace]; exact Ht.
+Qed.
+
+Lemma cb_tail_brace_free tail : cb_tail tail -> brace_free tail.
+Proof.
+  intros [fk gs Hfk Hgs|gs arrow Hgs Har]; unfold brace_free.
+  - constructor; [eapply kw_nb; exact Hfk | apply groups_brace_free; exact Hgs].
+  - apply Forall_app. split; [apply groups_brace_free; exact Hgs|]. constructor; [apply arrow_nb; exact Har | constructor].
+Qed.
+
+Lemma rparens_brace_free post : forallb is_rparen post = true -> brace_free post.
+Proof.
+  intros H. apply Forall_forall. intros t Ht. rewrite forallb_forall in H. apply H in Ht.
+  split; [apply rparen_not_lbrace | apply rparen_not_rbrace]; exact Ht.
+Qed.
+
 (* parameter lists with flat brace groups *)
 Lemma inner_binner g : inner g -> forall ok, binner ok g.
 Proof.
